@@ -59,6 +59,8 @@ def run_cfg(ctx, p, cfg):
     accessors.rule_fidelity(ctx, p, cfg, "X9", prefix="encode::", floor=3, with_build=False)           # "exactly the requested attributes": Style keeps the colour / intensity it is given, Some(value) for every value
     accessors.rule_fidelity(ctx, p, cfg, "X10", prefix="append::console::", floor=3, with_build=False)  # the builder keeps target, tty_only and encoder
     rule_style_forwarding(ctx, p, cfg, "X8")
+    from rules import c12
+    c12.rule_console_stream_exclusive(ctx, p, cfg, "X11")   # "each highlighted group followed by a reset": a record's bytes are not interleaved with another thread's on the same stream
     with ctx.rule("X1", "colour decision", cfg) as r:
         # the initialiser of COLOR_MODE is followed once per state of the three variables (unset / "0" / anything else):
         # 27 rows, each with the mode the documented precedence gives
